@@ -310,6 +310,9 @@ func (b *Balloon) QueryDigestMembershipConsistency(keyDigest hashing.Digest, ver
 	var proof MembershipProof
 	var err error
 	proof.Hasher = b.hasherF()
+	if len(keyDigest) != int(proof.Hasher.Len()/8) {
+		return nil, fmt.Errorf("invalid key digest: length is %d bytes, should be %d", len(keyDigest), proof.Hasher.Len()/8)
+	}
 	proof.KeyDigest = keyDigest
 	proof.QueryVersion = version
 	proof.CurrentVersion = b.version - 1
@@ -369,6 +372,9 @@ func (b *Balloon) QueryDigestMembership(keyDigest hashing.Digest) (*MembershipPr
 	var proof MembershipProof
 	var err error
 	proof.Hasher = b.hasherF()
+	if len(keyDigest) != int(proof.Hasher.Len()/8) {
+		return nil, fmt.Errorf("invalid key digest: length is %d bytes, should be %d", len(keyDigest), proof.Hasher.Len()/8)
+	}
 	proof.KeyDigest = keyDigest
 	proof.QueryVersion = b.version - 1
 	proof.CurrentVersion = proof.QueryVersion
